@@ -277,7 +277,9 @@ def judge(ev):
     if k == "pop":
         return None, ""
     if k == "raised":
-        return False, "%s is raised here (%s)" % d
+        if getattr(d[2], "caught", False):
+            return None, ""   # handled by an enclosing try/except
+        return False, "%s is raised here (%s)" % (d[0], d[1])
     return None, ""
 
 
